@@ -692,6 +692,50 @@ def r6(ctx):
              what='read_cached: region filter rejects a position inside [region_start, region_end)')
 
 
+@rule('C18', 'C18-R7', 'only single-nucleotide alleles are stored as bases: the test that admits an allele of a sample into the per-site table, evaluated on allele strings, '
+                       'holds for A / C / G / T and fails for every multi-base allele (indel, MNP) - also for those that happen to be a piece of "ACGT", which a substring test lets through')
+def r7(ctx):
+    from ..consteval import Evaluator, Unfoldable
+    ms = methods(ctx)
+    f = ms['fetchChromosome']
+    # the statements that enter an allele of a sample into the per-site table: <table>[<allele>].add(<sample>) with <allele> bound by an enclosing loop
+    sites = []
+    for l in [x for x in ast.walk(f) if isinstance(x, ast.For)]:
+        bound = {n.id for n in ast.walk(l.target) if isinstance(n, ast.Name)}
+        for c in walk_no_nested(l):
+            if isinstance(c, ast.Call) and isinstance(c.func, ast.Attribute) and c.func.attr == 'add' and isinstance(c.func.value, ast.Subscript) \
+                    and isinstance(c.func.value.slice, ast.Name) and c.func.value.slice.id in bound and 'sample' in src(c).lower():
+                inner = [x for x in ast.walk(l) if isinstance(x, ast.For) and x is not l and any(y is c for y in ast.walk(x)) and c.func.value.slice.id in {n.id for n in ast.walk(x.target) if isinstance(n, ast.Name)}]
+                if not inner:
+                    sites.append((l, c))
+    ctx.need('C18-R7', len(sites), 1, 'statements entering an allele of a sample into the site table')
+    singles = ['A', 'C', 'G', 'T']
+    multis = ['AC', 'CG', 'GT', 'ACG', 'CGT', 'ACGT', 'AT', 'TT', 'GTA', 'CA', 'TG', 'AA']
+    for k, (l, add) in enumerate(sites):
+        var = add.func.value.slice.id
+        adds = [add]
+        conds = reach_conds(l.body, adds[0]) or []
+        bad = None
+        try:
+            for val in singles + multis:
+                env = {var: val}
+                admitted = True
+                for t, pol in conds:
+                    if var not in names_in(t):
+                        continue
+                    admitted = admitted and (bool(Evaluator(dict(env)).ev(t, env)) == pol)
+                want = val in singles
+                if admitted != want and bad is None:
+                    bad = {'allele': val, 'stored as a base': admitted, 'expected': want, 'test': ' and '.join(('' if pol else 'not ') + src(t) for t, pol in conds if var in names_in(t))}
+        except (Unfoldable, Exception) as e_:
+            ctx.emit('C18-R7', False, ALLELES, adds[0], f'the admission test of `{var}` is outside the interpreted subset ({type(e_).__name__}: {str(e_)[:60]})', key=f'allele-is-a-base:{k}', undecided=True)
+            continue
+        ctx.counters['interpreted_cases'] = ctx.counters.get('interpreted_cases', 0) + len(singles + multis)
+        ctx.emit('C18-R7', bad is None, ALLELES, adds[0], f'{len(singles)} bases are admitted, {len(multis)} multi-base alleles mark the site instead' if bad is None else
+                 f'allele admission differs: {bad} - the lookup answers for a site that is not a single-nucleotide site', key=f'allele-is-a-base:{k}', witness=bad,
+                 what='AlleleResolver.fetchChromosome stores a multi-base allele as a base')
+
+
 META = {
     'text': ('Decides structural clauses: eager, lazy and cached modes all obtain content through fetchChromosome (read_cached / write_cache only from '
              'there; lookups fetch with clear=True under self.lazyLoad); no attribute read by the lookups is a stale snapshot of a constructor local; '
